@@ -13,6 +13,7 @@ import sys
 REGISTRIES = {
     "r7": ["A", "Z", "H", "O", "S", "V", "W"],
     "r8": ["A", "Z", "H", "O", "S", "V", "W", "X"],
+    "r9": ["A", "Z", "H", "O", "S", "V", "W", "X", "Y"],
     "r10": ["A", "Z", "H", "O", "S", "V", "W", "X", "Y", "T"],
 }
 COMP_IX = {"A": 0, "Z": 1, "H": 2, "O": 3, "S": 4, "V": 5, "W": 6, "X": 7, "Y": 8, "T": 9}
@@ -289,7 +290,7 @@ def main():
     rng = random.Random(f"{reg}-{seed}")
     comps = REGISTRIES[reg]
     nc = len(comps)
-    scale = {"r7": 1.0, "r8": 0.7}.get(reg, 0.6)
+    scale = {"r7": 1.0, "r8": 0.7, "r9": 0.6}.get(reg, 0.6)
 
     # insert sites
     if nc <= 7:
@@ -420,6 +421,26 @@ def main():
             w(f"        {i} => {{ {' '.join(body)} w.extend(Batch::new({nest})) }}")
         else:
             w(f"        {i} => {{ w.extend(Batch::new(entities::Null)) }}")
+    w("        _ => unreachable!(),")
+    w("    }")
+    w("}")
+    w("")
+    w("/// `Batch::new` on columns of which one (`bad_col`, modulo the column count) has `bad_len` instead of `n`")
+    w("/// elements. The safe constructor has to refuse this by panicking.")
+    w("pub fn extend_ragged(w: &mut Wd, site: usize, n: usize, bad_col: usize, bad_len: usize, val: &dyn Fn(u8, usize) -> u64) -> Vec<entity::Identifier> {")
+    w("    match site {")
+    for i, (m, order) in enumerate(extend_sites):
+        if len(order) < 2:
+            w(f"        {i} => Vec::new(),")
+            continue
+        body = []
+        for j, c in enumerate(order):
+            body.append(
+                f"let l{j} = if bad_col % {len(order)} == {j} {{ bad_len }} else {{ n }}; let mut v{j}: Vec<{c}> = Vec::with_capacity(l{j}); for r in 0..l{j} {{ v{j}.push(<{c} as Tracked>::make(val({COMP_IX[c]}, r))); }}")
+        nest = "entities::Null"
+        for j in reversed(range(len(order))):
+            nest = f"(v{j}, {nest})"
+        w(f"        {i} => {{ {' '.join(body)} w.extend(Batch::new({nest})) }}")
     w("        _ => unreachable!(),")
     w("    }")
     w("}")
